@@ -35,6 +35,8 @@ def main():
         sys.exit(0)
 
     args = parser.parse_args()
+    if args.lead_times is None:
+        verif.util.error("expandverif needs the lead times to expand to (-lt)")
 
     if args.debug:
         width = verif.util.get_screen_width()
@@ -52,6 +54,8 @@ def main():
         otimes[I] = itimes_whole_days + args.init_times[i] * 3600
     oleadtimes = args.lead_times
     obs = nc_missing * np.ones([len(otimes), len(oleadtimes), len(locations)], float)
+    if input.obs is None:
+        verif.util.error("File has no observations to expand")
     shape = input.obs.shape
     allobs = np.reshape(input.obs, [shape[0]*shape[1], shape[2]])
     q, w = np.meshgrid(ileadtimes, itimes)
